@@ -1,181 +1,213 @@
 (* C20: the invariants of the versioning model and the theorems over histories. *)
-From Coq Require Import List ZArith NArith Bool Lia.
+From Coq Require Import List ZArith NArith Bool Lia Sorting.Sorted.
 From Model Require Import Events Versioning.
-From Proofs Require Import EventsBase VersioningBase.
+From Proofs Require Import EventsBase VersioningBase VersioningKinds.
 Import ListNotations.
 Open Scope Z_scope.
 
-(* well-formedness, kept by every operation (failing ones included) *)
+(* well-formedness, kept by every operation (failing and refused ones included) *)
 Record vwf (st : vstate) : Prop := {
   w_rows : forall m r, row_of m (m_tbl st) = Some r -> validate r = true /\ full r;
-  w_vers : forall ver, In ver (v_tbl st) -> validate (v_vals ver) = true /\ full (v_vals ver)
+  w_vers : forall ver, In ver (arch st) -> validate (v_vals ver) = true /\ full (v_vals ver);
+  w_bound : forall m r, row_of m (m_tbl st) = Some r -> m < m_next st;
+  w_fresh : forall ver, In ver (arch st) -> v_master ver < m_next st;
+  w_hfresh : forall m, m_next st <= m -> hist_of m st = [];
+  w_alive : v_tbl st = filter (alive (gone st)) (arch st);
+  w_ids : forall ver, In ver (arch st) -> v_id ver < v_next st;
+  w_gone : forall g, In g (gone st) -> g < v_next st;
+  w_sorted : StronglySorted id_lt (arch st)
 }.
 
-(* the history invariant and what it needs *)
+(* the history invariant (needs: no update refused after its signal) *)
 Record vinv (st : vstate) : Prop := {
-  i_bound : forall m r, row_of m (m_tbl st) = Some r -> m < m_next st;
-  i_none : forall m, row_of m (m_tbl st) = None -> versions_of m st = [] /\ hist_of m st = [];
-  i_hist : forall m r, row_of m (m_tbl st) = Some r -> map v_vals (versions_of m st) ++ [r] = hist_of m st
+  i_hist : forall m r, row_of m (m_tbl st) = Some r -> map v_vals (archived_of m st) ++ [r] = hist_of m st;
+  i_dead : forall m, row_of m (m_tbl st) = None ->
+           archived_of m st = [] \/ exists r, map v_vals (archived_of m st) ++ [r] = hist_of m st
+}.
+
+(* nothing destroyed so far *)
+Record vinv0 (st : vstate) : Prop := {
+  z_gone : gone st = [];
+  z_live : forall ver, In ver (arch st) -> exists r, row_of (v_master ver) (m_tbl st) = Some r
 }.
 
 Lemma vwf_init : vwf vinit.
-Proof. split; simpl; intros; [discriminate|contradiction]. Qed.
+Proof. split; simpl; intros; try discriminate; try contradiction; try reflexivity. constructor. Qed.
 Lemma vinv_init : vinv vinit.
-Proof. split; simpl; intros; try discriminate. split; reflexivity. Qed.
+Proof. split; simpl; intros; try discriminate. left. reflexivity. Qed.
+Lemma vinv0_init : vinv0 vinit.
+Proof. split; simpl; intros; [reflexivity|contradiction]. Qed.
 
-(* ------------------------------------------------------------------ the update path *)
-(* what a successful update does, in any state *)
-Lemma vupdate_done st m kw st' :
-  vupdate st m kw = (st', VDone) ->
-  exists r, row_of m (m_tbl st) = Some r /\ validate kw = true
-    /\ m_tbl st' = tbl_update m (sort_cols kw) (m_tbl st) /\ m_next st' = m_next st
-    /\ v_tbl st' = v_tbl st ++ [{| v_id := v_next st; v_master := m; v_vals := r |}]
-    /\ v_next st' = v_next st + 1
-    /\ hist st' = hist_push m (row_update (sort_cols kw) r) (hist st).
-Proof.
-  unfold vupdate. destruct (row_of m (m_tbl st)) as [r|]; [|discriminate].
-  destruct (validate kw) eqn:E; simpl; [|discriminate].
-  destruct (a_conflict (Some m) (sort_cols kw) (m_tbl st)); intros H; inversion H; subst; clear H.
-  exists r. repeat split; reflexivity.
-Qed.
+Lemma in_vtbl_arch st : vwf st -> forall ver, In ver (v_tbl st) -> In ver (arch st).
+Proof. intros Hw ver H. rewrite (w_alive _ Hw) in H. apply filter_In in H. tauto. Qed.
 
-(* an update refused by validation changes nothing at all (6e91999) *)
-Lemma vupdate_invalid st m kw st' : vupdate st m kw = (st', VExn XInvalid) -> st' = st.
-Proof.
-  unfold vupdate. destruct (row_of m (m_tbl st)) as [r|]; [|discriminate].
-  destruct (validate kw); simpl; [|intros H; inversion H; reflexivity].
-  destruct (a_conflict _ _ _); discriminate.
-Qed.
-
+Lemma archived_of_app m st st' ver :
+  arch st' = arch st ++ [ver] ->
+  archived_of m st' = archived_of m st ++ (if Z.eqb (v_master ver) m then [ver] else []).
+Proof. unfold archived_of. intros ->. rewrite filter_app. reflexivity. Qed.
 Lemma versions_of_app m st st' ver :
   v_tbl st' = v_tbl st ++ [ver] ->
   versions_of m st' = versions_of m st ++ (if Z.eqb (v_master ver) m then [ver] else []).
 Proof. unfold versions_of. intros ->. rewrite filter_app. reflexivity. Qed.
 
-Lemma vupdate_wf st m kw : vwf st -> vwf (fst (vupdate st m kw)).
+(* archiving a (well-formed) row keeps the version side of vwf *)
+Lemma archived_wf st st' m r :
+  vwf st -> row_of m (m_tbl st) = Some r -> archived st st' m r ->
+  (forall ver, In ver (arch st') -> validate (v_vals ver) = true /\ full (v_vals ver))
+  /\ (forall ver, In ver (arch st') -> v_master ver < m_next st')
+  /\ v_tbl st' = filter (alive (gone st')) (arch st')
+  /\ (forall ver, In ver (arch st') -> v_id ver < v_next st')
+  /\ (forall g, In g (gone st') -> g < v_next st')
+  /\ StronglySorted id_lt (arch st').
 Proof.
-  intros [Hr Hv]. unfold vupdate. destruct (row_of m (m_tbl st)) as [r|] eqn:Er; [|split; assumption].
-  destruct (Hr m r Er) as [Hrv Hrf].
-  destruct (validate kw) eqn:E; simpl; [|split; assumption].
-  destruct (a_conflict (Some m) (sort_cols kw) (m_tbl st)); simpl.
-  - split; simpl; [exact Hr|].
-    intros ver Hin. apply in_app_or in Hin. destruct Hin as [Hin|[<-|[]]]; [auto|simpl; auto].
-  - split; simpl.
-    + intros m' r'. rewrite row_of_tbl_update. destruct (row_of m' (m_tbl st)) as [r0|] eqn:E0; [|discriminate].
-      intros H. inversion H; subst; clear H. destruct (Hr m' r0 E0) as [H1 H2].
-      destruct (Z.eqb m' m); [|auto]. split.
-      * apply validate_row_update; [apply validate_sort_cols; exact E|exact H1].
-      * apply row_update_keeps_full. exact H2.
-    + intros ver Hin. apply in_app_or in Hin. destruct Hin as [Hin|[<-|[]]]; [auto|simpl; auto].
+  intros Hw Er [Hv [Ha [Hn [Hm Hg]]]].
+  rewrite Ha, Hv, Hn, Hm, Hg. repeat split.
+  - apply in_app_or in H. destruct H as [H|[<-|[]]]; [exact (proj1 (w_vers _ Hw _ H))|exact (proj1 (w_rows _ Hw _ _ Er))].
+  - apply in_app_or in H. destruct H as [H|[<-|[]]]; [exact (proj2 (w_vers _ Hw _ H))|exact (proj2 (w_rows _ Hw _ _ Er))].
+  - intros ver H. apply in_app_or in H. destruct H as [H|[<-|[]]]; [exact (w_fresh _ Hw _ H)|exact (w_bound _ Hw _ _ Er)].
+  - rewrite filter_app, <- (w_alive _ Hw). f_equal. simpl.
+    assert (Hal : alive (gone st) {| v_id := v_next st; v_master := m; v_vals := r |} = true).
+    { unfold alive. simpl. apply negb_true_iff. apply not_true_is_false. intros H. apply existsb_exists in H.
+      destruct H as [g [Hg1 Hg2]]. apply Z.eqb_eq in Hg2. subst g. pose proof (w_gone _ Hw _ Hg1). lia. }
+    rewrite Hal. reflexivity.
+  - intros ver H. apply in_app_or in H. destruct H as [H|[<-|[]]]; [pose proof (w_ids _ Hw _ H); lia|simpl; lia].
+  - intros g H. pose proof (w_gone _ Hw _ H). lia.
+  - apply ssorted_app_end; [exact (w_sorted _ Hw)|]. intros x Hx. unfold id_lt. simpl. exact (w_ids _ Hw _ Hx).
 Qed.
 
-Lemma vrefuse_wf st m kw : vwf st -> vwf (fst (vrefuse st m kw)).
+Lemma hist_of_eq st st' m : hist st' = hist st -> hist_of m st' = hist_of m st.
+Proof. unfold hist_of. intros ->. reflexivity. Qed.
+
+Lemma vkind_wf st o st' out : vwf st -> vkind st o st' out -> vwf st'.
 Proof.
-  intros [Hr Hv]. unfold vrefuse. destruct (row_of m (m_tbl st)) as [r|] eqn:Er; [|split; assumption].
-  destruct (Hr m r Er) as [Hrv Hrf].
-  destruct (validate kw); simpl; [|split; assumption].
-  split; simpl; [exact Hr|].
-  intros ver Hin. apply in_app_or in Hin. destruct Hin as [Hin|[<-|[]]]; [auto|simpl; auto].
-Qed.
-Lemma vrefuse_not_done st m kw st' : vrefuse st m kw <> (st', VDone).
-Proof.
-  unfold vrefuse. destruct (row_of m (m_tbl st)); [|discriminate].
-  destruct (negb (validate kw)); discriminate.
-Qed.
-Lemma vrefuse_invalid st m kw st' : vrefuse st m kw = (st', VExn XInvalid) -> st' = st.
-Proof.
-  unfold vrefuse. destruct (row_of m (m_tbl st)); [|discriminate].
-  destruct (negb (validate kw)); [intros H; inversion H; reflexivity|discriminate].
-Qed.
-Lemma vrefuse_cases st m kw :
-  snd (vrefuse st m kw) = VExn XTypeError \/ fst (vrefuse st m kw) = st.
-Proof.
-  unfold vrefuse. destruct (row_of m (m_tbl st)); [|right; reflexivity].
-  destruct (negb (validate kw)); [right|left]; reflexivity.
+  intros Hw K. destruct K as [-> _ _|kw0 r _ _ Hv Hf Ht Hn Hh [S1 [S2 [S3 S4]]]
+                             |m r _ Er Ha Ht Hh _ _|m r w _ Er Hk Ha _ Ht Hh _
+                             |m r _ _ Er Ht Hn Hh [S1 [S2 [S3 S4]]]|vid ver _ _ Ef Hv Hg Hn Ha [S1 [S2 S3]]].
+  - exact Hw.
+  - split; rewrite ?Ht, ?Hn, ?S1, ?S2, ?S3, ?S4; try apply Hw.
+    + intros m r0. rewrite row_of_app. destruct (row_of m (m_tbl st)) as [r1|] eqn:E0.
+      * intros H. inversion H; subst. exact (w_rows _ Hw _ _ E0).
+      * destruct (Z.eqb m (m_next st)); [|discriminate]. intros H. inversion H; subst. auto.
+    + intros m r0. rewrite row_of_app. destruct (row_of m (m_tbl st)) as [r1|] eqn:E0.
+      * intros _. pose proof (w_bound _ Hw _ _ E0). lia.
+      * destruct (Z.eqb m (m_next st)) eqn:E; [|discriminate]. apply Z.eqb_eq in E. intros _. lia.
+    + intros ver H. pose proof (w_fresh _ Hw _ H). lia.
+    + intros m Hm. unfold hist_of. rewrite Hh, hist_get_push_other by lia. apply (w_hfresh _ Hw). lia.
+  - destruct (archived_wf st st' m r Hw Er Ha) as [A1 [A2 [A3 [A4 [A5 A6]]]]].
+    destruct Ha as [_ [_ [_ [Hm _]]]].
+    split; try assumption; rewrite ?Ht, ?Hm; try apply Hw.
+    intros m0 H0. rewrite (hist_of_eq st st' m0 Hh). apply (w_hfresh _ Hw). exact H0.
+  - destruct (archived_wf st st' m r Hw Er Ha) as [A1 [A2 [A3 [A4 [A5 A6]]]]].
+    destruct Ha as [_ [_ [_ [Hm _]]]].
+    split; try assumption; rewrite ?Ht, ?Hm.
+    + intros m' r'. rewrite row_of_tbl_update. destruct (row_of m' (m_tbl st)) as [r0|] eqn:E0; [|discriminate].
+      intros H. inversion H; subst; clear H. destruct (w_rows _ Hw _ _ E0) as [H1 H2].
+      destruct (Z.eqb m' m); [|auto]. split.
+      * apply validate_row_update; [apply validate_sort_cols; exact Hk|exact H1].
+      * apply row_update_keeps_full. exact H2.
+    + intros m' r'. rewrite row_of_tbl_update. destruct (row_of m' (m_tbl st)) as [r0|] eqn:E0; [|discriminate].
+      intros _. exact (w_bound _ Hw _ _ E0).
+    + intros m0 H0. unfold hist_of. rewrite Hh. pose proof (w_bound _ Hw _ _ Er).
+      rewrite hist_get_push_other by lia. apply (w_hfresh _ Hw). exact H0.
+  - split; rewrite ?Ht, ?Hn, ?S1, ?S2, ?S3, ?S4; try apply Hw.
+    + intros m' r'. rewrite row_of_tbl_delete. destruct (Z.eqb m' m); [discriminate|]. apply (w_rows _ Hw).
+    + intros m' r'. rewrite row_of_tbl_delete. destruct (Z.eqb m' m); [discriminate|]. apply (w_bound _ Hw).
+    + intros m0 H0. rewrite (hist_of_eq st st' m0 Hh). apply (w_hfresh _ Hw). exact H0.
+  - split; rewrite ?Hv, ?Hg, ?Hn, ?Ha, ?S1, ?S2; try apply Hw.
+    + intros m0 H0. rewrite (hist_of_eq st st' m0 S3). apply (w_hfresh _ Hw). exact H0.
+    + rewrite (w_alive _ Hw), filter_filter. apply filter_ext_in'. intros x _. rewrite alive_cons. reflexivity.
+    + intros g [<-|H]; [|exact (w_gone _ Hw _ H)].
+      destruct (find_version_In _ _ _ Ef) as [H1 H2]. subst vid. apply (w_ids _ Hw). apply in_vtbl_arch; assumption.
 Qed.
 
 Lemma vstep_wf st o : vwf st -> vwf (fst (vstep st o)).
 Proof.
-  intros Hw. destruct o as [kw0|m c v|m kw0|m kw0|vid]; unfold vstep.
-  - destruct (fill_defaults all_cols (mk_kw kw0)) as [kw2|] eqn:Ef; [|exact Hw].
-    destruct (validate kw2) eqn:Ev; simpl; [|exact Hw].
-    destruct (a_conflict None kw2 (m_tbl st)); simpl; [exact Hw|].
-    destruct Hw as [Hr Hv]. split; simpl; [|exact Hv].
-    intros m r. rewrite row_of_app. destruct (row_of m (m_tbl st)) as [r0|] eqn:E0.
-    + intros H. inversion H; subst. exact (Hr m r E0).
-    + destruct (Z.eqb m (m_next st)); [|discriminate]. intros H. inversion H; subst. split.
-      * apply validate_sort_cols. exact Ev.
-      * destruct (fill_defaults_has _ _ Ef) as [Ha [Hb Hc]]. apply sort_cols_full_of; assumption.
-  - apply vupdate_wf; auto.
-  - apply vupdate_wf; auto.
-  - apply vrefuse_wf; auto.
-  - destruct (find_version vid (v_tbl st)) as [ver|]; [apply vupdate_wf; auto|exact Hw].
+  intros Hw. apply (vkind_wf st o _ (snd (vstep st o)) Hw). apply vstep_kind. destruct (vstep st o); reflexivity.
 Qed.
 
-(* an update that the database does not refuse keeps the history invariant
-   (refused by validation: nothing happens) *)
-Lemma vupdate_inv st m kw :
-  vwf st -> vinv st -> snd (vupdate st m kw) <> VExn XDuplicate -> vinv (fst (vupdate st m kw)).
+(* a step that is not refused after its signal keeps the history invariant *)
+Lemma vkind_inv st o st' out :
+  vwf st -> vinv st -> vkind st o st' out ->
+  db_refused {| w_pre := st; w_op := o; w_out := out; w_post := st' |} = false -> vinv st'.
 Proof.
-  intros Hw [Hb Hn Hh]. unfold vupdate. destruct (row_of m (m_tbl st)) as [r|] eqn:Er; [|split; assumption].
-  destruct (validate kw) eqn:Hk; simpl; [|split; assumption].
-  destruct (a_conflict (Some m) (sort_cols kw) (m_tbl st)); simpl; [intros Hx; contradiction|]. intros _.
-  set (ver := {| v_id := v_next st; v_master := m; v_vals := r |}).
-  set (st' := {| m_tbl := tbl_update m (sort_cols kw) (m_tbl st); m_next := m_next st; v_tbl := v_tbl st ++ [ver];
-                 v_next := v_next st + 1; hist := hist_push m (row_update (sort_cols kw) r) (hist st) |}).
-  assert (Hvo : forall m', versions_of m' st' = versions_of m' st ++ (if Z.eqb m m' then [ver] else [])).
-  { intros m'. apply (versions_of_app m' st st' ver). reflexivity. }
-  split.
-  - intros m' r'. simpl. rewrite row_of_tbl_update. destruct (row_of m' (m_tbl st)) as [r0|] eqn:E0; [|discriminate].
-    intros _. exact (Hb m' r0 E0).
-  - intros m'. simpl. rewrite row_of_tbl_update. destruct (row_of m' (m_tbl st)) as [r0|] eqn:E0; [discriminate|].
-    intros _. destruct (Hn m' E0) as [H1 H2].
-    assert (Hne : m' <> m) by (intros ->; congruence).
-    rewrite Hvo, H1. destruct (Z.eqb m m') eqn:E; [apply Z.eqb_eq in E; subst; contradiction|].
-    split; [reflexivity|]. unfold hist_of. simpl. rewrite hist_get_push_other by exact Hne. exact H2.
-  - intros m' r'. simpl. rewrite row_of_tbl_update. destruct (row_of m' (m_tbl st)) as [r0|] eqn:E0; [|discriminate].
-    intros H. inversion H; subst r'; clear H. rewrite Hvo. unfold hist_of. simpl.
-    destruct (Z.eqb m' m) eqn:E.
-    + apply Z.eqb_eq in E. subst m'. rewrite Z.eqb_refl. rewrite Er in E0. inversion E0; subst r0.
-      rewrite hist_get_push_same, map_app.
-      pose proof (Hh m r Er) as Hx. unfold hist_of in Hx. rewrite <- Hx. reflexivity.
-    + assert (Hne : m' <> m) by (intros ->; rewrite Z.eqb_refl in E; discriminate).
-      rewrite Z.eqb_sym, E, app_nil_r. rewrite hist_get_push_other by exact Hne. exact (Hh m' r0 E0).
-Qed.
-
-Lemma vstep_inv st o :
-  vwf st -> vinv st ->
-  db_refused {| w_pre := st; w_op := o; w_out := snd (vstep st o); w_post := fst (vstep st o) |} = false ->
-  vinv (fst (vstep st o)).
-Proof.
-  intros Hw Hi Ho. destruct o as [kw0|m c v|m kw0|m kw0|vid]; unfold db_refused in Ho; cbn [w_op w_out] in Ho; unfold vstep in *.
-  - destruct (fill_defaults all_cols (mk_kw kw0)) as [kw2|] eqn:Ef; [|exact Hi].
-    destruct (validate kw2) eqn:Ev; simpl; [|exact Hi].
-    destruct (a_conflict None kw2 (m_tbl st)); simpl; [exact Hi|].
-    destruct Hi as [Hb Hn Hh].
+  intros Hw [Hh Hd] K Hnr.
+  destruct K as [-> _ _|kw0 r _ _ Hv Hf Ht Hn Hhi [S1 [S2 [S3 S4]]]
+                |m r _ Er Ha Ht Hhi Hr _|m r w _ Er Hk Ha _ Ht Hhi _
+                |m r _ _ Er Ht Hn Hhi [S1 [S2 [S3 S4]]]|vid ver _ _ Ef Hv Hg Hn Ha [S1 [S2 S3]]].
+  - split; assumption.
+  - (* create *)
     assert (Hfresh : row_of (m_next st) (m_tbl st) = None).
-    { destruct (row_of (m_next st) (m_tbl st)) as [r|] eqn:E; [|reflexivity]. pose proof (Hb _ _ E). lia. }
+    { destruct (row_of (m_next st) (m_tbl st)) as [r0|] eqn:E; [|reflexivity]. pose proof (w_bound _ Hw _ _ E). lia. }
+    assert (Hnoarch : archived_of (m_next st) st = []).
+    { unfold archived_of. apply filter_none. intros x Hx. pose proof (w_fresh _ Hw _ Hx).
+      apply Z.eqb_neq. lia. }
+    assert (Hao : forall m, archived_of m st' = archived_of m st) by (intros m; unfold archived_of; rewrite S3; reflexivity).
     split.
-    + intros m r. simpl. rewrite row_of_app. destruct (row_of m (m_tbl st)) as [r0|] eqn:E0.
-      * intros _. pose proof (Hb m r0 E0). lia.
-      * destruct (Z.eqb m (m_next st)) eqn:E; [|discriminate]. apply Z.eqb_eq in E. intros _. lia.
-    + intros m. simpl. rewrite row_of_app. destruct (row_of m (m_tbl st)) as [r0|] eqn:E0; [discriminate|].
-      destruct (Z.eqb m (m_next st)) eqn:E; [discriminate|]. intros _.
-      destruct (Hn m E0) as [H1 H2]. split; [exact H1|].
-      unfold hist_of. simpl. rewrite hist_get_push_other; [exact H2|].
-      intros ->. rewrite Z.eqb_refl in E. discriminate.
-    + intros m r. simpl. rewrite row_of_app. unfold hist_of, versions_of. simpl.
-      destruct (row_of m (m_tbl st)) as [r0|] eqn:E0.
-      * intros H. inversion H; subst r0. pose proof (Hb m r E0).
-        rewrite hist_get_push_other by lia. exact (Hh m r E0).
+    + intros m r0. rewrite Ht, row_of_app, Hao. unfold hist_of. rewrite Hhi.
+      destruct (row_of m (m_tbl st)) as [r1|] eqn:E0.
+      * intros H. inversion H; subst r1. pose proof (w_bound _ Hw _ _ E0).
+        rewrite hist_get_push_other by lia. exact (Hh m r0 E0).
       * destruct (Z.eqb m (m_next st)) eqn:E; [|discriminate]. apply Z.eqb_eq in E. subst m.
-        intros H. inversion H; subst r. destruct (Hn _ Hfresh) as [H1 H2].
-        unfold versions_of in H1. rewrite H1. unfold hist_of in H2. rewrite hist_get_push_same, H2. reflexivity.
-  - apply vupdate_inv; try assumption. intros Hx. rewrite Hx in Ho. discriminate.
-  - apply vupdate_inv; try assumption. intros Hx. rewrite Hx in Ho. discriminate.
-  - destruct (vrefuse_cases st m (mk_kw kw0)) as [Hx|Hx]; [rewrite Hx in Ho; discriminate|rewrite Hx; exact Hi].
-  - destruct (find_version vid (v_tbl st)) as [ver|] eqn:Ef; [|exact Hi].
-    apply vupdate_inv; try assumption. intros Hx. rewrite Hx in Ho. discriminate.
+        intros H. inversion H; subst r0. rewrite Hnoarch, hist_get_push_same.
+        pose proof (w_hfresh _ Hw (m_next st) (Z.le_refl _)) as H0. unfold hist_of in H0. rewrite H0. reflexivity.
+    + intros m. rewrite Ht, row_of_app, Hao. destruct (row_of m (m_tbl st)) as [r1|] eqn:E0; [discriminate|].
+      destruct (Z.eqb m (m_next st)) eqn:E; [discriminate|]. intros _.
+      unfold hist_of. rewrite Hhi, hist_get_push_other; [exact (Hd m E0)|].
+      intros ->. rewrite Z.eqb_refl in E. discriminate.
+  - rewrite Hr in Hnr. discriminate.
+  - (* update *)
+    destruct Ha as [_ [Ha _]].
+    assert (Hao : forall m', archived_of m' st' = archived_of m' st
+                              ++ (if Z.eqb m m' then [{| v_id := v_next st; v_master := m; v_vals := r |}] else [])).
+    { intros m'. apply (archived_of_app m' st st' _ Ha). }
+    split.
+    + intros m' r'. rewrite Ht, row_of_tbl_update. destruct (row_of m' (m_tbl st)) as [r0|] eqn:E0; [|discriminate].
+      intros H. inversion H; subst r'; clear H. rewrite Hao. unfold hist_of. rewrite Hhi.
+      destruct (Z.eqb m' m) eqn:E.
+      * apply Z.eqb_eq in E. subst m'. rewrite Z.eqb_refl. rewrite Er in E0. inversion E0; subst r0.
+        rewrite hist_get_push_same, map_app.
+        pose proof (Hh m r Er) as Hx. unfold hist_of in Hx. rewrite <- Hx. reflexivity.
+      * assert (Hne : m' <> m) by (intros ->; rewrite Z.eqb_refl in E; discriminate).
+        rewrite Z.eqb_sym, E, app_nil_r. rewrite hist_get_push_other by exact Hne. exact (Hh m' r0 E0).
+    + intros m'. rewrite Ht, row_of_tbl_update. destruct (row_of m' (m_tbl st)) as [r0|] eqn:E0; [discriminate|].
+      intros _. assert (Hne : m' <> m) by (intros ->; congruence).
+      rewrite Hao. destruct (Z.eqb m m') eqn:E; [apply Z.eqb_eq in E; subst; contradiction|].
+      rewrite app_nil_r. unfold hist_of. rewrite Hhi, hist_get_push_other by exact Hne. exact (Hd m' E0).
+  - (* destroy of a master *)
+    assert (Hao : forall m', archived_of m' st' = archived_of m' st) by (intros m'; unfold archived_of; rewrite S3; reflexivity).
+    split.
+    + intros m' r'. rewrite Ht, row_of_tbl_delete, Hao, (hist_of_eq st st' m' Hhi).
+      destruct (Z.eqb m' m); [discriminate|]. apply Hh.
+    + intros m'. rewrite Ht, row_of_tbl_delete, Hao, (hist_of_eq st st' m' Hhi).
+      destruct (Z.eqb m' m) eqn:E; [|apply Hd].
+      apply Z.eqb_eq in E. subst m'. intros _. right. exists r. exact (Hh m r Er).
+  - (* destroy of a version: arch, rows and history are what they were *)
+    assert (Hao : forall m', archived_of m' st' = archived_of m' st) by (intros m'; unfold archived_of; rewrite Ha; reflexivity).
+    split.
+    + intros m' r'. rewrite S1, Hao, (hist_of_eq st st' m' S3). apply Hh.
+    + intros m'. rewrite S1, Hao, (hist_of_eq st st' m' S3). apply Hd.
+Qed.
+
+Lemma vkind_inv0 st o st' out :
+  vinv0 st -> vkind st o st' out ->
+  destroyed {| w_pre := st; w_op := o; w_out := out; w_post := st' |} = false -> vinv0 st'.
+Proof.
+  intros [Hg Hl] K Hnd.
+  destruct K as [-> _ _|kw0 r _ _ Hv Hf Ht Hn Hhi [S1 [S2 [S3 S4]]]
+                |m r _ Er Ha Ht Hhi Hr _|m r w _ Er Hk Ha _ Ht Hhi _
+                |m r -> -> Er Ht Hn Hhi _|vid ver -> -> Ef Hv Hg' Hn Ha _].
+  - split; assumption.
+  - split; [rewrite S4; exact Hg|]. intros ver. rewrite S3, Ht. intros H. destruct (Hl ver H) as [r0 H0].
+    exists r0. rewrite row_of_app, H0. reflexivity.
+  - destruct Ha as [_ [Ha [_ [_ Hgo]]]]. split; [rewrite Hgo; exact Hg|].
+    intros ver. rewrite Ha, Ht. intros H. apply in_app_or in H. destruct H as [H|[<-|[]]]; [exact (Hl ver H)|simpl; eauto].
+  - destruct Ha as [_ [Ha [_ [_ Hgo]]]]. split; [rewrite Hgo; exact Hg|].
+    intros ver. rewrite Ha, Ht. intros H.
+    assert (Hx : exists r0, row_of (v_master ver) (m_tbl st) = Some r0).
+    { apply in_app_or in H. destruct H as [H|[<-|[]]]; [exact (Hl ver H)|simpl; eauto]. }
+    destruct Hx as [r0 H0]. rewrite row_of_tbl_update, H0. eauto.
+  - discriminate Hnd.
+  - discriminate Hnd.
 Qed.
 
 (* ------------------------------------------------------------------ histories *)
@@ -186,6 +218,10 @@ Proof.
   induction ops as [|o rest IH]; intros st w H; simpl in H; [contradiction|].
   destruct H as [<-|H]; [unfold is_vstep; simpl; destruct (vstep st o); reflexivity|exact (IH _ _ H)].
 Qed.
+Lemma vrun_kind ops st w : In w (vrun st ops) -> vkind (w_pre w) (w_op w) (w_post w) (w_out w).
+Proof. intros H. apply vstep_kind. symmetry. exact (vrun_is_step ops st w H). Qed.
+Lemma vstep_kind' st o : vkind st o (fst (vstep st o)) (snd (vstep st o)).
+Proof. apply vstep_kind. destruct (vstep st o); reflexivity. Qed.
 
 Lemma vrun_wf : forall ops st, vwf st -> forall w, In w (vrun st ops) -> vwf (w_pre w) /\ vwf (w_post w).
 Proof.
@@ -195,52 +231,71 @@ Proof.
   - apply (IH (fst (vstep st o))); [apply vstep_wf; exact Hw|exact H].
 Qed.
 
-Lemma vrun_inv : forall ops st, vwf st -> vinv st -> vguard_from st ops = true ->
+Lemma vrun_inv : forall ops st, vwf st -> vinv st -> vguard_r_from st ops = true ->
   forall w, In w (vrun st ops) -> vinv (w_pre w) /\ vinv (w_post w).
 Proof.
   induction ops as [|o rest IH]; intros st Hw Hi Hg w H; simpl in H; [contradiction|].
-  unfold vguard_from in Hg. simpl in Hg. apply andb_true_iff in Hg. destruct Hg as [Hg1 Hg2].
+  unfold vguard_r_from in Hg. simpl in Hg. apply andb_true_iff in Hg. destruct Hg as [Hg1 Hg2].
   apply negb_true_iff in Hg1.
+  assert (Hi' : vinv (fst (vstep st o))) by (apply (vkind_inv st o _ (snd (vstep st o)) Hw Hi (vstep_kind' st o)); exact Hg1).
   destruct H as [<-|H]; simpl.
-  - split; [exact Hi|apply vstep_inv; assumption].
-  - apply (IH (fst (vstep st o))); [apply vstep_wf; exact Hw|apply vstep_inv; assumption|exact Hg2|exact H].
+  - split; assumption.
+  - apply (IH (fst (vstep st o))); [apply vstep_wf; exact Hw|exact Hi'|exact Hg2|exact H].
 Qed.
 
-(* C20_history_inv: after every step of a history in which the database
-   refuses no update, for every master: its versions followed by its row are
-   its history *)
+Lemma vrun_inv0 : forall ops st, vinv0 st -> vguard_from st ops = true ->
+  forall w, In w (vrun st ops) -> vinv0 (w_pre w) /\ vinv0 (w_post w).
+Proof.
+  induction ops as [|o rest IH]; intros st Hi Hg w H; simpl in H; [contradiction|].
+  unfold vguard_from in Hg. simpl in Hg. apply andb_true_iff in Hg. destruct Hg as [Hg1 Hg2].
+  apply andb_true_iff in Hg1. destruct Hg1 as [_ Hg1]. apply negb_true_iff in Hg1.
+  assert (Hi' : vinv0 (fst (vstep st o))) by (apply (vkind_inv0 st o _ (snd (vstep st o)) Hi (vstep_kind' st o)); exact Hg1).
+  destruct H as [<-|H]; simpl.
+  - split; assumption.
+  - apply (IH (fst (vstep st o))); [exact Hi'|exact Hg2|exact H].
+Qed.
+
+Lemma vguard_weaken : forall ops st, vguard_from st ops = true -> vguard_r_from st ops = true.
+Proof.
+  intros ops st. unfold vguard_from, vguard_r_from. rewrite !forallb_forall. intros H w Hw.
+  specialize (H w Hw). apply andb_true_iff in H. tauto.
+Qed.
+
+(* with nothing destroyed, master.versions is everything ever archived for it *)
+Lemma versions_archived st m : vwf st -> gone st = [] -> versions_of m st = archived_of m st.
+Proof.
+  intros Hw Hg. unfold versions_of, archived_of. rewrite (w_alive _ Hw), Hg.
+  f_equal. apply filter_all. intros x _. reflexivity.
+Qed.
+
+(* C20_history_inv_partial *)
 Lemma hist_inv ops w m r :
   vguard ops = true -> In w (vrun vinit ops) -> row_of m (m_tbl (w_post w)) = Some r ->
   map v_vals (versions_of m (w_post w)) ++ [r] = hist_of m (w_post w).
 Proof.
-  intros Hg Hin Hr. destruct (vrun_inv ops vinit vwf_init vinv_init Hg w Hin) as [_ [_ _ Hh]]. exact (Hh m r Hr).
+  intros Hg Hin Hr.
+  destruct (vrun_inv ops vinit vwf_init vinv_init (vguard_weaken _ _ Hg) w Hin) as [_ [Hh _]].
+  destruct (vrun_inv0 ops vinit vinv0_init Hg w Hin) as [_ [Hz _]].
+  destruct (vrun_wf ops vinit vwf_init w Hin) as [_ Hw].
+  rewrite (versions_archived _ m Hw Hz). exact (Hh m r Hr).
 Qed.
 
-(* one version per successful update, in every state and every history *)
-Lemma one_version st o st' m :
-  vstep st o = (st', VDone) -> vtarget st o = Some m ->
-  exists r, row_of m (m_tbl st) = Some r
-    /\ versions_of m st' = versions_of m st ++ [{| v_id := v_next st; v_master := m; v_vals := r |}]
-    /\ (forall m', m' <> m -> versions_of m' st' = versions_of m' st)
-    /\ (forall m', m' <> m -> row_of m' (m_tbl st') = row_of m' (m_tbl st)).
+(* the same with destroys allowed: the history equation holds on everything
+   ever archived, and master.versions is that list without the destroyed ones *)
+Lemma hist_inv_destroy ops w m r :
+  vguard_r ops = true -> In w (vrun vinit ops) -> row_of m (m_tbl (w_post w)) = Some r ->
+  map v_vals (archived_of m (w_post w)) ++ [r] = hist_of m (w_post w)
+  /\ versions_of m (w_post w) = filter (alive (gone (w_post w))) (archived_of m (w_post w)).
 Proof.
-  intros Hs Ht.
-  assert (Hu : exists kw, vupdate st m kw = (st', VDone)).
-  { destruct o as [kw0|m0 c v|m0 kw0|m0 kw0|vid]; simpl in *; try discriminate.
-    - inversion Ht; subst. eauto.
-    - inversion Ht; subst. eauto.
-    - exfalso. exact (vrefuse_not_done _ _ _ _ Hs).
-    - destruct (find_version vid (v_tbl st)) as [ver|]; [|discriminate]. inversion Ht; subst. eauto. }
-  destruct Hu as [kw Hu]. destruct (vupdate_done _ _ _ _ Hu) as [r [Hr [Hk [Ht' [_ [Hv [_ _]]]]]]].
-  exists r. split; [exact Hr|]. split; [|split].
-  - rewrite (versions_of_app m st st' _ Hv). simpl. rewrite Z.eqb_refl. reflexivity.
-  - intros m' Hn. rewrite (versions_of_app m' st st' _ Hv). simpl.
-    destruct (Z.eqb m m') eqn:E; [apply Z.eqb_eq in E; subst; contradiction|apply app_nil_r].
-  - intros m' Hn. rewrite Ht', row_of_tbl_update.
-    destruct (row_of m' (m_tbl st)); [|reflexivity].
-    destruct (Z.eqb m' m) eqn:E; [apply Z.eqb_eq in E; contradiction|reflexivity].
+  intros Hg Hin Hr.
+  destruct (vrun_inv ops vinit vwf_init vinv_init Hg w Hin) as [_ [Hh _]].
+  destruct (vrun_wf ops vinit vwf_init w Hin) as [_ Hw].
+  split; [exact (Hh m r Hr)|].
+  unfold versions_of, archived_of. rewrite (w_alive _ Hw), !filter_filter.
+  apply filter_ext_in'. intros x _. apply andb_comm.
 Qed.
 
+(* one version per successful update, in every history *)
 Lemma hist_one_version ops w m :
   In w (vrun vinit ops) -> w_out w = VDone -> vtarget (w_pre w) (w_op w) = Some m ->
   exists r, row_of m (m_tbl (w_pre w)) = Some r
@@ -248,8 +303,21 @@ Lemma hist_one_version ops w m :
     /\ (forall m', m' <> m -> versions_of m' (w_post w) = versions_of m' (w_pre w))
     /\ (forall m', m' <> m -> row_of m' (m_tbl (w_post w)) = row_of m' (m_tbl (w_pre w))).
 Proof.
-  intros Hin Ho Ht. pose proof (vrun_is_step ops vinit w Hin) as Hs. unfold is_vstep in Hs. rewrite Ho in Hs.
-  apply (one_version (w_pre w) (w_op w)); [symmetry; exact Hs|exact Ht].
+  intros Hin Ho Ht. pose proof (vrun_kind ops vinit w Hin) as K.
+  destruct K as [_ Hnd _|kw0 r Hop _ _ _ _ _ _ _|m0 r _ _ _ _ _ _ Hx|m0 r w0 Ht0 Er Hk [Hv _] _ Htb _ _
+                |m0 r Hop _ _ _ _ _ _|vid ver Hop _ _ _ _ _ _ _].
+  - contradiction.
+  - rewrite Hop in Ht. discriminate.
+  - rewrite Ho in Hx. destruct Hx; discriminate.
+  - rewrite Ht in Ht0. inversion Ht0; subst m0. exists r. split; [exact Er|]. split; [|split].
+    + rewrite (versions_of_app m _ _ _ Hv). simpl. rewrite Z.eqb_refl. reflexivity.
+    + intros m' Hn. rewrite (versions_of_app m' _ _ _ Hv). simpl.
+      destruct (Z.eqb m m') eqn:E; [apply Z.eqb_eq in E; subst; contradiction|apply app_nil_r].
+    + intros m' Hn. rewrite Htb, row_of_tbl_update.
+      destruct (row_of m' (m_tbl (w_pre w))); [|reflexivity].
+      destruct (Z.eqb m' m) eqn:E; [apply Z.eqb_eq in E; contradiction|reflexivity].
+  - rewrite Hop in Ht. discriminate.
+  - rewrite Hop in Ht. discriminate.
 Qed.
 
 (* restore: the master row becomes the version's values *)
@@ -258,44 +326,222 @@ Lemma hist_restore ops w vid ver :
   find_version vid (v_tbl (w_pre w)) = Some ver ->
   row_of (v_master ver) (m_tbl (w_post w)) = Some (v_vals ver).
 Proof.
-  intros Hin Hop Ho Hf. pose proof (vrun_is_step ops vinit w Hin) as Hs. unfold is_vstep in Hs.
-  rewrite Hop, Ho in Hs. simpl in Hs. rewrite Hf in Hs. symmetry in Hs.
-  destruct (vupdate_done _ _ _ _ Hs) as [r [Hr [_ [Ht _]]]].
-  destruct (vrun_wf ops vinit vwf_init w Hin) as [[Hrows Hvers] _].
-  destruct (find_version_In _ _ _ Hf) as [Hv _]. destruct (Hvers ver Hv) as [_ Hfull].
-  destruct (Hrows _ _ Hr) as [_ Hrfull].
-  rewrite Ht, row_of_tbl_update, Hr, Z.eqb_refl, (sort_cols_full _ Hfull), (row_update_full _ _ Hfull Hrfull).
-  reflexivity.
+  intros Hin Hop Ho Hf. pose proof (vrun_kind ops vinit w Hin) as K.
+  destruct (vrun_wf ops vinit vwf_init w Hin) as [Hw _].
+  destruct K as [_ Hnd _|kw0 r Hop' _ _ _ _ _ _ _|m0 r _ _ _ _ _ _ Hx|m0 r w0 Ht0 Er Hk _ _ Htb _ Hres
+                |m0 r Hop' _ _ _ _ _ _|vid' ver' Hop' _ _ _ _ _ _ _]; try congruence.
+  - rewrite Ho in Hx. destruct Hx; discriminate.
+  - rewrite Hop in Ht0. simpl in Ht0. rewrite Hf in Ht0. inversion Ht0; subst m0.
+    rewrite (Hres vid ver Hop Hf) in *.
+    destruct (find_version_In _ _ _ Hf) as [Hv _]. destruct (w_vers _ Hw ver (in_vtbl_arch _ Hw _ Hv)) as [_ Hfull].
+    destruct (w_rows _ Hw _ _ Er) as [_ Hrfull].
+    rewrite Htb, row_of_tbl_update, Er, Z.eqb_refl, (sort_cols_full _ Hfull), (row_update_full _ _ Hfull Hrfull).
+    reflexivity.
 Qed.
 
-(* no mixing: a version filed under m holds a state that m's row really had,
-   and m exists *)
+(* no mixing (nothing destroyed): a version filed under m holds a state that m's row really had, and m exists *)
 Lemma hist_no_mixing ops w ver :
   vguard ops = true -> In w (vrun vinit ops) -> In ver (v_tbl (w_post w)) ->
   (exists r, row_of (v_master ver) (m_tbl (w_post w)) = Some r)
   /\ In (v_vals ver) (hist_of (v_master ver) (w_post w)).
 Proof.
-  intros Hg Hin Hv. destruct (vrun_inv ops vinit vwf_init vinv_init Hg w Hin) as [_ [_ Hn Hh]].
-  assert (Hvo : In ver (versions_of (v_master ver) (w_post w))).
-  { unfold versions_of. apply filter_In. split; [exact Hv|apply Z.eqb_refl]. }
+  intros Hg Hin Hv.
+  destruct (vrun_inv ops vinit vwf_init vinv_init (vguard_weaken _ _ Hg) w Hin) as [_ [Hh _]].
+  destruct (vrun_inv0 ops vinit vinv0_init Hg w Hin) as [_ [_ Hl]].
+  destruct (vrun_wf ops vinit vwf_init w Hin) as [_ Hw].
+  pose proof (in_vtbl_arch _ Hw _ Hv) as Ha.
+  destruct (Hl ver Ha) as [r Er]. split; [eauto|].
+  rewrite <- (Hh _ r Er). apply in_or_app. left. apply in_map.
+  unfold archived_of. apply filter_In. split; [exact Ha|apply Z.eqb_refl].
+Qed.
+
+(* no mixing with destroys: a version, also an orphan of a destroyed master,
+   is filed under an id that was handed out, and holds a state of the history of that id *)
+Lemma hist_no_mixing_destroy ops w ver :
+  vguard_r ops = true -> In w (vrun vinit ops) -> In ver (v_tbl (w_post w)) ->
+  v_master ver < m_next (w_post w) /\ In (v_vals ver) (hist_of (v_master ver) (w_post w)).
+Proof.
+  intros Hg Hin Hv.
+  destruct (vrun_inv ops vinit vwf_init vinv_init Hg w Hin) as [_ [Hh Hd]].
+  destruct (vrun_wf ops vinit vwf_init w Hin) as [_ Hw].
+  pose proof (in_vtbl_arch _ Hw _ Hv) as Ha. split; [exact (w_fresh _ Hw _ Ha)|].
+  assert (Hao : In ver (archived_of (v_master ver) (w_post w))).
+  { unfold archived_of. apply filter_In. split; [exact Ha|apply Z.eqb_refl]. }
   destruct (row_of (v_master ver) (m_tbl (w_post w))) as [r|] eqn:Er.
-  - split; [eauto|]. rewrite <- (Hh _ r Er). apply in_or_app. left. apply in_map. exact Hvo.
-  - destruct (Hn _ Er) as [H1 _]. rewrite H1 in Hvo. contradiction.
+  - rewrite <- (Hh _ r Er). apply in_or_app. left. apply in_map. exact Hao.
+  - destruct (Hd _ Er) as [H0|[r H0]]; [rewrite H0 in Hao; contradiction|].
+    rewrite <- H0. apply in_or_app. left. apply in_map. exact Hao.
 Qed.
 
 (* an update refused by validation changes nothing, in every history *)
 Lemma hist_invalid_noop ops w :
   In w (vrun vinit ops) -> w_out w = VExn XInvalid -> w_post w = w_pre w.
 Proof.
-  intros Hin Ho. pose proof (vrun_is_step ops vinit w Hin) as Hs. unfold is_vstep in Hs. rewrite Ho in Hs.
-  symmetry in Hs. destruct (w_op w) as [kw0|m c v|m kw0|m kw0|vid]; unfold vstep in Hs.
-  - destruct (fill_defaults all_cols (mk_kw kw0)) as [kw2|]; [|discriminate].
-    destruct (negb (validate kw2)); [inversion Hs; reflexivity|].
-    destruct (a_conflict None kw2 _); discriminate.
-  - exact (vupdate_invalid _ _ _ _ Hs).
-  - exact (vupdate_invalid _ _ _ _ Hs).
-  - exact (vrefuse_invalid _ _ _ _ Hs).
-  - destruct (find_version vid _) as [ver|]; [exact (vupdate_invalid _ _ _ _ Hs)|discriminate].
+  intros Hin Ho. pose proof (vrun_kind ops vinit w Hin) as K.
+  destruct K as [H _ _|kw0 r _ H _ _ _ _ _ _|m0 r _ _ _ _ _ _ Hx|m0 r w0 _ _ _ _ H _ _ _
+                |m0 r _ H _ _ _ _ _|vid ver _ H _ _ _ _ _ _]; try congruence.
+  rewrite Ho in Hx. destruct Hx; discriminate.
+Qed.
+
+(* ------------------------------------------------------------------ destroySelf *)
+(* of a master: its row goes, every other row stays, the version table is not
+   touched -- the versions stay behind, filed under the id *)
+Lemma hist_destroy_master ops w m :
+  In w (vrun vinit ops) -> w_op w = VDestroy m -> w_out w = VDone ->
+  row_of m (m_tbl (w_post w)) = None
+  /\ (forall m', m' <> m -> row_of m' (m_tbl (w_post w)) = row_of m' (m_tbl (w_pre w)))
+  /\ v_tbl (w_post w) = v_tbl (w_pre w) /\ m_next (w_post w) = m_next (w_pre w)
+  /\ hist (w_post w) = hist (w_pre w).
+Proof.
+  intros Hin Hop Ho. pose proof (vrun_kind ops vinit w Hin) as K.
+  destruct K as [_ Hnd _|kw0 r Hop' _ _ _ _ _ _ _|m0 r _ _ _ _ _ _ Hx|m0 r w0 Ht0 _ _ _ _ _ _ _
+                |m0 r Hop' _ Er Ht Hn Hh [S1 _]|vid' ver' Hop' _ _ _ _ _ _ _]; try congruence.
+  - rewrite Ho in Hx. destruct Hx; discriminate.
+  - rewrite Hop in Ht0. discriminate.
+  - rewrite Hop in Hop'. inversion Hop'; subst m0. rewrite Ht. repeat split; try assumption.
+    + rewrite row_of_tbl_delete, Z.eqb_refl. reflexivity.
+    + intros m' Hne. rewrite row_of_tbl_delete. destruct (Z.eqb m' m) eqn:E; [apply Z.eqb_eq in E; contradiction|reflexivity].
+Qed.
+
+(* of a version: exactly that row of the version table goes; rows, history and
+   the record of what was archived are untouched *)
+Lemma hist_destroy_version ops w vid :
+  In w (vrun vinit ops) -> w_op w = VDestroyVer vid -> w_out w = VDone ->
+  v_tbl (w_post w) = filter (fun x => negb (Z.eqb (v_id x) vid)) (v_tbl (w_pre w))
+  /\ gone (w_post w) = vid :: gone (w_pre w) /\ arch (w_post w) = arch (w_pre w)
+  /\ m_tbl (w_post w) = m_tbl (w_pre w) /\ hist (w_post w) = hist (w_pre w).
+Proof.
+  intros Hin Hop Ho. pose proof (vrun_kind ops vinit w Hin) as K.
+  destruct K as [_ Hnd _|kw0 r Hop' _ _ _ _ _ _ _|m0 r _ _ _ _ _ _ Hx|m0 r w0 Ht0 _ _ _ _ _ _ _
+                |m0 r Hop' _ _ _ _ _ _|vid' ver' Hop' _ _ Hv Hg _ Ha [S1 [_ S3]]]; try congruence.
+  - rewrite Ho in Hx. destruct Hx; discriminate.
+  - rewrite Hop in Ht0. discriminate.
+  - rewrite Hop in Hop'. inversion Hop'; subst vid'. repeat split; assumption.
+Qed.
+Lemma hist_gone_only_by_destroy ops w :
+  In w (vrun vinit ops) -> (forall vid, w_op w <> VDestroyVer vid) ->
+  gone (w_post w) = gone (w_pre w) /\ (forall x, In x (v_tbl (w_pre w)) -> In x (v_tbl (w_post w))).
+Proof.
+  intros Hin Hop. pose proof (vrun_kind ops vinit w Hin) as K.
+  destruct K as [-> _ _|kw0 r _ _ _ _ _ _ _ [S1 [_ [_ S4]]]|m0 r _ _ [Hv [_ [_ [_ Hg]]]] _ _ _ _
+                |m0 r w0 _ _ _ [Hv [_ [_ [_ Hg]]]] _ _ _ _
+                |m0 r _ _ _ _ _ _ [S1 [_ [_ S4]]]|vid' ver' Hop' _ _ _ _ _ _ _].
+  - split; auto.
+  - rewrite S1. split; auto.
+  - rewrite Hv. split; [assumption|]. intros x Hx. apply in_or_app. left. exact Hx.
+  - rewrite Hv. split; [assumption|]. intros x Hx. apply in_or_app. left. exact Hx.
+  - rewrite S1. split; auto.
+  - exfalso. exact (Hop _ Hop').
+Qed.
+
+(* a created master gets an id that no version, destroyed or not, of any
+   master, destroyed or not, was ever filed under: it starts with no versions
+   and an empty history *)
+Lemma hist_create_fresh ops w kw :
+  In w (vrun vinit ops) -> w_op w = VCreate kw -> w_out w = VDone ->
+  exists r, m_tbl (w_post w) = m_tbl (w_pre w) ++ [(m_next (w_pre w), r)]
+    /\ row_of (m_next (w_pre w)) (m_tbl (w_pre w)) = None
+    /\ (forall ver, In ver (arch (w_post w)) -> v_master ver <> m_next (w_pre w))
+    /\ versions_of (m_next (w_pre w)) (w_post w) = []
+    /\ hist_of (m_next (w_pre w)) (w_post w) = [r].
+Proof.
+  intros Hin Hop Ho. pose proof (vrun_kind ops vinit w Hin) as K.
+  destruct (vrun_wf ops vinit vwf_init w Hin) as [Hw Hw'].
+  destruct K as [_ Hnd _|kw0 r _ _ _ _ Ht _ Hh [S1 [_ [S3 _]]]|m0 r _ _ _ _ _ _ Hx|m0 r w0 Ht0 _ _ _ _ _ _ _
+                |m0 r Hop' _ _ _ _ _ _|vid' ver' Hop' _ _ _ _ _ _ _]; try congruence.
+  - exists r. split; [exact Ht|]. split; [|split; [|split]].
+    + destruct (row_of (m_next (w_pre w)) (m_tbl (w_pre w))) as [r0|] eqn:E; [|reflexivity].
+      pose proof (w_bound _ Hw _ _ E). lia.
+    + intros ver. rewrite S3. intros H. pose proof (w_fresh _ Hw _ H). lia.
+    + unfold versions_of. rewrite S1. apply filter_none. intros x Hx.
+      pose proof (w_fresh _ Hw _ (in_vtbl_arch _ Hw _ Hx)). apply Z.eqb_neq. lia.
+    + unfold hist_of. rewrite Hh, hist_get_push_same.
+      pose proof (w_hfresh _ Hw (m_next (w_pre w)) (Z.le_refl _)) as H0. unfold hist_of in H0. rewrite H0. reflexivity.
+  - rewrite Ho in Hx. destruct Hx; discriminate.
+  - rewrite Hop in Ht0. discriminate.
+Qed.
+
+(* ------------------------------------------------------------------ nextVersion / getChangedFields *)
+Lemma later_of_split st ver l1 l2 :
+  vwf st -> versions_of (v_master ver) st = l1 ++ ver :: l2 -> later_of ver (v_tbl st) = l2.
+Proof.
+  intros Hw Hs. unfold later_of.
+  rewrite <- (filter_filter (fun x => Z.ltb (v_id ver) (v_id x)) (fun x => Z.eqb (v_master x) (v_master ver))).
+  fold (versions_of (v_master ver) st). rewrite Hs.
+  assert (Hso : StronglySorted id_lt (l1 ++ ver :: l2)).
+  { rewrite <- Hs. unfold versions_of. apply ssorted_filter. rewrite (w_alive _ Hw). apply ssorted_filter. exact (w_sorted _ Hw). }
+  destruct (ssorted_split _ _ _ _ Hso) as [H1 H2]. unfold id_lt in *.
+  rewrite filter_app. simpl. rewrite Z.ltb_irrefl.
+  rewrite (filter_none _ l1), (filter_all _ l2); [reflexivity| |].
+  - intros x Hx. apply Z.ltb_lt. exact (H2 x Hx).
+  - intros x Hx. apply Z.ltb_ge. pose proof (H1 x Hx). lia.
+Qed.
+
+Lemma next_in_split st ver l1 l2 :
+  vwf st -> versions_of (v_master ver) st = l1 ++ ver :: l2 ->
+  next_in (v_tbl st) (m_tbl st) ver = successor st ver l2.
+Proof. intros Hw Hs. unfold next_in, successor, successor_in. rewrite (later_of_split st ver l1 l2 Hw Hs). reflexivity. Qed.
+
+Lemma hist_next_version ops w vid ver l1 l2 :
+  In w (vrun vinit ops) -> w_op w = VNext vid -> find_version vid (v_tbl (w_pre w)) = Some ver ->
+  versions_of (v_master ver) (w_pre w) = l1 ++ ver :: l2 ->
+  w_post w = w_pre w /\ w_out w = next_outcome (successor (w_pre w) ver l2).
+Proof.
+  intros Hin Hop Hf Hs. pose proof (vrun_is_step ops vinit w Hin) as Hst. unfold is_vstep in Hst.
+  destruct (vrun_wf ops vinit vwf_init w Hin) as [Hw _].
+  rewrite Hop in Hst. simpl in Hst. rewrite Hf, (next_in_split _ _ _ _ Hw Hs) in Hst.
+  inversion Hst. split; reflexivity.
+Qed.
+Lemma hist_changed_fields ops w vid ver l1 l2 :
+  In w (vrun vinit ops) -> w_op w = VChanged vid -> find_version vid (v_tbl (w_pre w)) = Some ver ->
+  versions_of (v_master ver) (w_pre w) = l1 ++ ver :: l2 ->
+  w_post w = w_pre w /\ w_out w = changed_outcome ver (successor (w_pre w) ver l2).
+Proof.
+  intros Hin Hop Hf Hs. pose proof (vrun_is_step ops vinit w Hin) as Hst. unfold is_vstep in Hst.
+  destruct (vrun_wf ops vinit vwf_init w Hin) as [Hw _].
+  rewrite Hop in Hst. simpl in Hst. rewrite Hf, (next_in_split _ _ _ _ Hw Hs) in Hst.
+  inversion Hst. split; reflexivity.
+Qed.
+
+(* the pre-state of a step of a guarded history satisfies what the post-states do *)
+Lemma hist_inv_pre ops w m r :
+  vguard ops = true -> In w (vrun vinit ops) -> row_of m (m_tbl (w_pre w)) = Some r ->
+  map v_vals (versions_of m (w_pre w)) ++ [r] = hist_of m (w_pre w).
+Proof.
+  intros Hg Hin Hr.
+  destruct (vrun_inv ops vinit vwf_init vinv_init (vguard_weaken _ _ Hg) w Hin) as [[Hh _] _].
+  destruct (vrun_inv0 ops vinit vinv0_init Hg w Hin) as [[Hz _] _].
+  destruct (vrun_wf ops vinit vwf_init w Hin) as [Hw _].
+  rewrite (versions_archived _ m Hw Hz). exact (Hh m r Hr).
+Qed.
+
+(* against the history: version number k (from 0) of master m holds state k of
+   m's history, and getChangedFields() names the columns in which state k and
+   state k+1 differ *)
+Lemma hist_changed_fields_history ops w vid ver l1 l2 r :
+  vguard ops = true -> In w (vrun vinit ops) -> w_op w = VChanged vid ->
+  find_version vid (v_tbl (w_pre w)) = Some ver ->
+  versions_of (v_master ver) (w_pre w) = l1 ++ ver :: l2 ->
+  row_of (v_master ver) (m_tbl (w_pre w)) = Some r ->
+  v_vals ver = nth (length l1) (hist_of (v_master ver) (w_pre w)) []
+  /\ w_out w = VFields (diff_cols (nth (length l1) (hist_of (v_master ver) (w_pre w)) [])
+                                  (nth (S (length l1)) (hist_of (v_master ver) (w_pre w)) [])).
+Proof.
+  intros Hg Hin Hop Hf Hs Hr.
+  destruct (hist_changed_fields ops w vid ver l1 l2 Hin Hop Hf Hs) as [_ Ho].
+  pose proof (hist_inv_pre ops w _ r Hg Hin Hr) as Hh. rewrite Hs in Hh.
+  rewrite map_app in Hh. simpl in Hh. rewrite <- app_assoc in Hh. simpl in Hh.
+  rewrite <- Hh.
+  assert (Hk : nth (length l1) (map v_vals l1 ++ v_vals ver :: map v_vals l2 ++ [r]) [] = v_vals ver).
+  { rewrite <- (map_length v_vals l1). apply nth_middle. }
+  assert (Hk1 : nth (S (length l1)) (map v_vals l1 ++ v_vals ver :: map v_vals l2 ++ [r]) []
+                = match l2 with x :: _ => v_vals x | [] => r end).
+  { replace (map v_vals l1 ++ v_vals ver :: map v_vals l2 ++ [r])
+      with ((map v_vals l1 ++ [v_vals ver]) ++ (map v_vals l2 ++ [r])) by (rewrite <- app_assoc; reflexivity).
+    replace (S (length l1)) with (length (map v_vals l1 ++ [v_vals ver])) by (rewrite app_length, map_length; simpl; lia).
+    destruct l2 as [|x l2']; simpl; apply nth_middle. }
+  rewrite Hk, Hk1. split; [reflexivity|].
+  rewrite Ho. unfold successor, successor_in. destruct l2 as [|x l2']; [rewrite Hr|]; reflexivity.
 Qed.
 
 (* ------------------------------------------------------------------ the open defect *)
@@ -330,13 +576,31 @@ Proof. eexists. split; [right; left; reflexivity|]. repeat split. vm_compute. di
 
 (* ------------------------------------------------------------------ masters on another connection than the class's own *)
 (* whatever the connection mode, the history is the class-mode history and the class's own database is not touched *)
+Lemma vquery_no_change t st o out : vquery t st o = Some out -> fst (vstep st o) = st.
+Proof.
+  destruct o; simpl; try discriminate; intros _.
+  - destruct (find_version vid (v_tbl st)); reflexivity.
+  - destruct (find_version vid (v_tbl st)); reflexivity.
+Qed.
+Lemma wstep_state foreign ws o :
+  w_main (fst (wstep foreign ws o)) = fst (vstep (w_main ws) o) /\ w_decoy (fst (wstep foreign ws o)) = w_decoy ws.
+Proof. unfold wstep. split; reflexivity. Qed.
 Lemma wfinal_any foreign ops : forall ws,
   w_main (wfinal foreign ws ops) = vfinal (w_main ws) ops /\ w_decoy (wfinal foreign ws ops) = w_decoy ws.
 Proof.
   induction ops as [|o r IH]; intros ws; [split; reflexivity|].
   unfold wfinal, vfinal in *. cbn [fold_left]. destruct (IH (fst (wstep foreign ws o))) as [H1 H2].
-  rewrite H1, H2. unfold wstep. split; reflexivity.
+  destruct (wstep_state foreign ws o) as [H3 H4].
+  rewrite H1, H2, H3, H4. split; reflexivity.
 Qed.
+
+(* outcomes: whatever the connection mode, every operation -- nextVersion and
+   getChangedFields included, since 7323516 -- answers as the class-mode history does *)
+Lemma wstep_outcome foreign ws o : snd (wstep foreign ws o) = snd (vstep (w_main ws) o).
+Proof. reflexivity. Qed.
+(* the witness of next_version_ignores_version_connection (fixed by 7323516), kept as a regression *)
+Definition ops_next_foreign : list vop :=
+  [VCreate [(CA, VInt 1)]; VAssign 1 CB (VStr [120%N]); VAssign 1 CA (VInt 2)].
 
 (* the witness of the defect fixed by 61db062: restore() of a version on a foreign connection *)
 Definition ops_foreign : list vop :=
